@@ -33,8 +33,8 @@ Short5 == StringsUpTo(5)
 NoTexts == {}
 NoParts == [proto |-> {}, user |-> {}, passwd |-> {}, host |-> {}, port |-> {}, path |-> {}, query |-> {}]
 
-LookupsQuick    == {<<"P", 0>>, <<"N", 0>>, <<"T", 80>>, <<"U", 8080>>}
-LookupsThorough == {<<"P", 0>>, <<"N", 0>>, <<"T", 80>>, <<"U", 8080>>, <<"T", 65535>>, <<"U", 7>>}
+LookupsQuick    == {<<"ip", 0>>, <<"no", 0>>, <<"tcp", 80>>, <<"udp", 8080>>}
+LookupsThorough == {<<"ip", 0>>, <<"no", 0>>, <<"tcp", 80>>, <<"udp", 8080>>, <<"tcp", 65535>>, <<"udp", 7>>}
 
 ObsEmit(op, args, ret, post) ==
     PrintT(ToJson([pre |-> Pre, op |-> op, args |-> args, ret |-> ret, post |-> post]))
